@@ -611,6 +611,12 @@ func genAdvPeer(rt *rapid.T, nm *hx.NodeMachine, cfg genCfg) hx.NOp {
 		}
 	}
 	op := genPeerOn(rt, nm, cfg, parent)
+	if len(op.Txs) > 0 && rapid.IntRange(0, 11).Draw(rt, "treeleaf") == 0 {
+		// a genuine block whose carried merkle tree names other transactions than its body
+		op.TreeLeaf = rapid.IntRange(1, 3).Draw(rt, "leafkind")
+		op.Expect = "carried-tree-leaves"
+		return op
+	}
 	switch rapid.IntRange(0, 9).Draw(rt, "advpeer") {
 	case 7, 8, 9:
 		// an adversarial candidate of the pool path (unbalanced, double input, wrong cited amount / owner / frozen
